@@ -336,6 +336,22 @@ func main() {
 					}
 				}
 			}
+			pf := func(p orb.Point) orb.Point { return orb.Point{p[0]*2 + 1, 3 - p[1]} }
+			if v, p := try(func() interface{} { return project.Geometry(orb.Clone(g), pf) }); p == "" {
+				want := make(orb.Collection, len(col))
+				bad := false
+				for i, m := range col {
+					mv, mp := try(func() interface{} { return project.Geometry(orb.Clone(m), pf) })
+					if mp != "" {
+						bad = true
+						break
+					}
+					want[i], _ = mv.(orb.Geometry)
+				}
+				if got, _ := v.(orb.Geometry); !bad && refgeom.Struct(got) != refgeom.Struct(want) {
+					c.Failf("collection-combination", "project.Geometry(%s) = %v, member-wise %v", desc, got, want)
+				}
+			}
 			if v, p := try(func() interface{} { return orb.Round(orb.Clone(g), 10) }); p == "" {
 				want := make(orb.Collection, len(col))
 				for i, m := range col {
